@@ -5,8 +5,11 @@
    over a JSON datatype.  Python exceptions are explicit ([res]).  Model only,
    no proofs.
 
-   [fixed] selects the repaired behaviour proposed for the three defects
-   (findings C08-F1..F3); [fixed = false] is the code as it exists.
+   [fixed = true] is the code as it is in /repo now, i.e. with the three
+   repairs ae9929b (hed_dict of a non-object entry), 8a59f35 (non-object
+   document refused with HedFileError) and f477d0a (references of '#'-less value
+   strings are screened).  [fixed = false] is the behaviour BEFORE those fix
+   commits; it is kept only for the record of the repaired defects.
 
    String-level HED validation is abstracted as the section variables [V_*]
    (functions from strings to issue lists); the correspondence harness
@@ -131,8 +134,9 @@ Variable V_full : list str -> str -> list str -> list str -> list issue.
 
 (* ColumnMetadata.hed_dict with _source = the loaded dict and v = _source[column_name]
    (the column names iterated are the dict's own keys, so that index is safe):
-   v.get("HED", {}) -- AttributeError when v is not a dict.
-   fixed: non-dict entries have no HED strings. *)
+   v.get("HED", {}).
+   now (fixed = true, since ae9929b): non-dict entries have no HED strings;
+   before ae9929b (fixed = false): AttributeError when v is not a dict. *)
 Definition hed_dict (v : json) : res json :=
   match v with
   | JObj kvs => Ok (match lookup s_HED kvs with Some h => h | None => JObj [] end)
@@ -151,8 +155,9 @@ Definition get_hed_strings (ct : option ctype) (v : json) : res (list (str * str
 (* sidecar.py: loading                                                     *)
 
 (* Sidecar.load_sidecar_files: merged_dict.update(json.load(fp)).
-   dict.update of a non-dict: iterates it expecting 2-sequences.
-   fixed: anything but an object is refused with HedFileError. *)
+   now (fixed = true, since 8a59f35): anything but an object is refused with
+   HedFileError; before 8a59f35 (fixed = false): dict.update of a non-dict
+   iterates it expecting 2-sequences (TypeError / ValueError). *)
 Definition load (j : json) : res (list (str * json)) :=
   match j with
   | JObj kvs => Ok kvs
@@ -298,8 +303,9 @@ Definition possible_column_refs (sc : list (str * json)) : list str :=
 
 (* the strings _validate_refs looks at in one column: get_hed_strings() of the
    basic-validated column.
-   fixed: a value column whose string lacks '#' (basic type None) still has
-   its references screened. *)
+   now (fixed = true, since f477d0a): a value column whose string lacks '#'
+   (basic type None) still has its references screened; before f477d0a
+   (fixed = false) it was skipped and the product loop could raise KeyError. *)
 Definition ref_strings_of_column (v : json) : res (list (str * str)) :=
   let ct := detect_column_type true v in
   match fixed, ct, v with
@@ -480,22 +486,41 @@ Definition is_nil {A} (l : list A) : bool := match l with [] => true | _ => fals
 (* all curly-brace references made by the strings of a column *)
 Definition col_refs (v : json) : list str := flat_map find_refs (column_strings v).
 
+(* specification-level "HED-bearing": the entry is an object whose HED entry
+   is a string or a map of strings (independent of the validator's column
+   type detection; for entries obeying the '#' rules it coincides with
+   [hed_bearing], lemma spec_bearing_hed_bearing) *)
+Definition spec_bearing (v : json) : bool :=
+  match v with
+  | JObj kvs =>
+      match lookup s_HED kvs with
+      | Some (JStr _) => true
+      | Some (JObj hv) => forallb is_str (map snd hv)
+      | _ => false
+      end
+  | _ => false
+  end.
+
 (* a reference names an existing HED-bearing column, and no column of that
    name holds references itself (no nesting) *)
 Definition ref_target_ok (sc : list (str * json)) (r : str) : bool :=
-  existsb (fun c : str * json => str_eqb r (fst c) && hed_bearing (snd c)) sc
+  existsb (fun c : str * json => str_eqb r (fst c) && spec_bearing (snd c)) sc
   && forallb (fun c : str * json => negb (str_eqb r (fst c)) || is_nil (col_refs (snd c))) sc.
 
-(* braces balanced and un-nested; every reference is not the column itself and
-   is HED or a legal target *)
+(* braces balanced and un-nested; every reference (find_refs, characterised
+   declaratively by find_refs_spec) is not the column itself and is HED or a
+   legal target *)
 Definition string_ok (sc : list (str * json)) (name : str) (s : str) : bool :=
   braces_ok s
   && forallb (fun r => negb (str_eqb r name) && (str_eqb r s_HED || ref_target_ok sc r)) (find_refs s).
 
+(* [chk] = also require the '#' counts; [chk = false] is "well-formed except
+   possibly for the '#' rules" (used by the '#'-fault corollaries) *)
+
 (* a categorical entry: non-empty string, key is not n/a, no '#' *)
-Definition cat_entry_ok (sc : list (str * json)) (name : str) (kv : str * json) : bool :=
+Definition cat_entry_ok_gen (chk : bool) (sc : list (str * json)) (name : str) (kv : str * json) : bool :=
   match snd kv with
-  | JStr s => negb (is_nil s) && negb (str_eqb (fst kv) s_NA) && Nat.eqb (count ch_hash s) 0
+  | JStr s => negb (is_nil s) && negb (str_eqb (fst kv) s_NA) && (negb chk || Nat.eqb (count ch_hash s) 0)
               && string_ok sc name s
   | _ => false
   end.
@@ -503,22 +528,29 @@ Definition cat_entry_ok (sc : list (str * json)) (name : str) (kv : str * json) 
 (* a top-level entry: the HED entry is a string with exactly one '#', or a
    non-empty map of categorical entries; entries without a HED entry (plain
    metadata, any JSON value) do not use the key HED anywhere inside *)
-Definition col_ok (sc : list (str * json)) (col : str * json) : bool :=
+Definition col_ok_gen (chk : bool) (sc : list (str * json)) (col : str * json) : bool :=
   let (name, v) := col in
   match v with
   | JObj kvs =>
       match lookup s_HED kvs with
       | None => negb (check_for_key s_HED v)
-      | Some (JStr s) => Nat.eqb (count ch_hash s) 1 && string_ok sc name s
-      | Some (JObj hv) => negb (is_nil hv) && forallb (cat_entry_ok sc name) hv
+      | Some (JStr s) => (negb chk || Nat.eqb (count ch_hash s) 1) && string_ok sc name s
+      | Some (JObj hv) => negb (is_nil hv) && forallb (cat_entry_ok_gen chk sc name) hv
       | Some _ => false
       end
   | _ => negb (check_for_key s_HED v)
   end.
 
 (* HED is not a column name and every entry is well-formed *)
-Definition struct_ok (sc : list (str * json)) : bool :=
-  negb (mem_str s_HED (map fst sc)) && forallb (col_ok sc) sc.
+Definition struct_ok_gen (chk : bool) (sc : list (str * json)) : bool :=
+  negb (mem_str s_HED (map fst sc)) && forallb (col_ok_gen chk sc) sc.
+
+(* StructOK of the statement *)
+Definition cat_entry_ok := cat_entry_ok_gen true.
+Definition col_ok := col_ok_gen true.
+Definition struct_ok := struct_ok_gen true.
+(* every structural rule except the '#' counts *)
+Definition struct_ok_but_hash := struct_ok_gen false.
 
 (* every HED string of the sidecar, in document order *)
 Definition doc_strings (sc : list (str * json)) : list str :=
